@@ -150,11 +150,14 @@ struct Broker : sim::NetSink {
     std::deque<int> session_present_script;              // 1/0 forced decisions for next CONNACKs (-1 = knob)
     bool healed = false;
     bool hostile_window = false;
+    struct Overlap { uint64_t old_begin, new_begin; bool resolve; std::string text; };
+    std::vector<Overlap> overlaps;                       // C11 (system): raw observations, judged by the oracle
     std::vector<std::string> violations_online;          // protocol violations by the client noticed on receipt (C17 etc.)
     std::vector<std::pair<uint64_t,int>> sp_history;     // (seq, session present) per successful CONNACK
 
     BConn* bc(int conn) { return conn >= 0 && conn < (int)conns.size() ? conns[conn].get() : nullptr; }
     BConn* current();                                    // latest established, not closed
+    std::string unfinished_attempt(int except, uint64_t* begun = nullptr);
 
     // NetSink
     void on_attempt(sim::Conn&) override;
